@@ -161,6 +161,34 @@ def main():
         if isinstance(got, str) or [x for x in got if x[0]] != [(True, r) for r in recs] or [x for x in got if not x[0]] != [(False, r) for r in other]:
             fails.append({"what": "any-order: %d segments of a direction in a random order (first stays first) change the records delivered" % len(arr),
                           "arrivals": [(s_, q, p_.hex()) for s_, q, p_ in merged], "want": [(True, r.hex()) for r in recs], "got": str(got)[:300]})
+    # any arrivals at all (the statement of C05_any_arrivals_release_a_prefix / C03_loss_leaves_a_prefix): segments lost, captured several times,
+    # in any order, the first one first -- what is handed over is a beginning of the records; half of the streams have equal-size records in
+    # record-size segments out of step (a hole there leaves the framing aligned)
+    for rep in range(40 if ck.tier == "quick" else 1500):
+        if rep % 2:
+            L = rng.randrange(1, 6)
+            recs = [b"\x17\x03\x03" + L.to_bytes(2, "big") + bytes(rng.randrange(256) for _ in range(L)) for _ in range(rng.randrange(3, 8))]
+            stream = b"".join(recs)
+            sh = rng.randrange(1, 5 + L)
+            cutsx = list(range(sh, len(stream), 5 + L))
+        else:
+            recs = tiny_records(rng, rng.randrange(2, 9))
+            stream = b"".join(recs)
+            cutsx = sorted(rng.sample(range(1, len(stream)), rng.randrange(2, min(14, len(stream))) - 1))
+        arr = arrivals_of(chunk(stream, cutsx), rng.choice([5, 1 << 31, (1 << 32) - rng.randrange(1, len(stream)), rng.randrange(1 << 32)]))
+        idx = [i for i in range(1, len(arr)) if rng.randrange(4)]            # each later segment is lost with probability 1/4 ...
+        if len(idx) == len(arr) - 1 and idx:
+            idx.remove(rng.choice(idx))                                      # ... and at least one is
+        idx += [rng.choice(idx) for _ in range(rng.randrange(3))] if idx else []   # some are captured twice
+        rng.shuffle(idx)
+        sel = [arr[0]] + [arr[i] for i in idx]
+        got = records_handed(impl, sel)
+        hist["any-arrivals/%s" % ("aligned" if rep % 2 else "random")] += 1
+        ck.case(("any-arrivals", tuple(sel)))
+        want = [(True, r) for r in recs]
+        if isinstance(got, str) or got != want[:len(got)]:
+            fails.append({"what": "any-arrivals: %d of %d segments of a direction captured (some twice) in a random order: what is delivered is not a beginning of the records sent" % (len(set(idx)) + 1, len(arr)),
+                          "arrivals": [(s_, q, p_.hex()) for s_, q, p_ in sel], "want": [(True, r.hex()) for r in recs], "got": str(got)[:300]})
     # open finding: the very FIRST data segment of a direction is the displaced one and the segment that overtakes it frames as whole records
     expect([whole[1], whole[0], whole[2]], [(True, r1), (True, r2), (True, r3)],
            "first-displaced: the first data segment of a direction arrives after a later one that frames as whole records", tag="first-segment-displaced")
